@@ -944,6 +944,31 @@ pub fn mutating_workloads() -> Vec<(String, usize, Vec<WStep>)> {
             WStep::DropHandle(1),
         ],
     ));
+    // a mini stream migrates to a regular chain by an append through a fresh handle; the flush is
+    // repeated after another small stream has been written and flushed
+    v.push((
+        "migration by append, other small stream written, flush repeated".to_string(),
+        1 << 20,
+        vec![
+            WStep::Create,
+            WStep::CreateStream(0, "/a".into()),
+            WStep::Write(0, 3000),
+            WStep::Flush(0),
+            WStep::DropHandle(0),
+            WStep::OpenStream(0, "/a".into()),
+            WStep::SeekEnd(0, 0),
+            WStep::Write(0, 2000),
+            WStep::Flush(0),
+            WStep::CreateStream(1, "/b".into()),
+            WStep::Write(1, 3000),
+            WStep::Flush(1),
+            WStep::Flush(0),
+            WStep::Flush(1),
+            WStep::DropHandle(0),
+            WStep::DropHandle(1),
+            WStep::CompFlush,
+        ],
+    ));
     // a regular chain is cut short but stays regular, another stream allocates, the shrink is repeated
     v.push((
         "shrink within regular, other stream allocates, shrink again".to_string(),
